@@ -39,7 +39,7 @@ theorem kit_toDegrees (s : Nat) (hs : s < 2 ^ 32) :
 theorem kit_piRadians : Go.kitangle.piRadians = 2 ^ 31 ∧
     conversionFactor = div (ofInt 180) (ofInt (Go.kitangle.piRadians : Int)) := ⟨rfl, rfl⟩
 
-theorem wrapI64_id (y : Int) (h0 : 0 ≤ y) (h1 : y < 2 ^ 32) : Go.wrapI 64 y = y := by
+theorem wrapI64_id_u32 (y : Int) (h0 : 0 ≤ y) (h1 : y < 2 ^ 32) : Go.wrapI 64 y = y := by
   unfold Go.wrapI; omega
 
 /-- `TzOffsetHoursFromUint32(local, utc)`: the uint32 difference (wrapping), as an int, divided by 3600 toward zero — never
@@ -50,7 +50,7 @@ theorem kit_tzOffset (l d : Nat) (hl : l < 2 ^ 32) (hd : d < 2 ^ 32) :
   have key : Go.kitint.TzOffsetHoursFromUint32 l d = (((l + 2 ^ 32 - d) % 2 ^ 32 / 3600 : Nat) : Int) := by
     unfold Go.kitint.TzOffsetHoursFromUint32
     have hx : (((l : Int) + 2 ^ 32 - (d : Int)) % 2 ^ 32) = (((l + 2 ^ 32 - d) % 2 ^ 32 : Nat) : Int) := by omega
-    rw [hx, Int.tdiv_eq_ediv_of_nonneg (by omega), wrapI64_id _ (by omega) (by omega)]
+    rw [hx, Int.tdiv_eq_ediv_of_nonneg (by omega), wrapI64_id_u32 _ (by omega) (by omega)]
     omega
   refine ⟨key, fun hle => ?_⟩
   rw [key]
